@@ -27,13 +27,13 @@ def make(tier):
     h = ''
     for f, what in SC:
         n = ARGS[f]
-        decl = ' '.join('u32 x%d;' % i for i in range(n))
+        decl = ' '.join('VF_IN(u32, x%d);' % i for i in range(n))   # VF_IN: nondet under CBMC, the counterexample value in the native replay
         norm = ('x%d = (x%d != 0);' % (n - 1, n - 1)) if f in BOOL_LAST else ''
         h += 'void h_%s(void){ %s %s u32 bad = %s(%s);\n' % (f[3:], decl, norm, f, ', '.join('x%d' % i for i in range(n)))
         for k, nm in enumerate(NAMES):
             h += '  __CPROVER_assert((bad & %du) == 0, "%s: %s");\n' % (1 << k, what.replace('"', ''), nm)
         h += '  VF_PROBE(); }\n'
-    h += 'void h_tree_pre_order(void){ u32 v, c1, c2, g; u32 out[4]; u32 n = vf_tree_pre_order(v, c1, c2, g, out);\n  __CPROVER_assert(n == 4 && out[0] == v && out[1] == c1 && out[2] == g && out[3] == c2, "pre_order visits v, c1, g, c2 (depth first, children in order)"); VF_PROBE(); }\n'
+    h += 'void h_tree_pre_order(void){ VF_IN(u32, v); VF_IN(u32, c1); VF_IN(u32, c2); VF_IN(u32, g); u32 out[4]; u32 n = vf_tree_pre_order(v, c1, c2, g, out);\n  __CPROVER_assert(n == 4 && out[0] == v && out[1] == c1 && out[2] == g && out[3] == c2, "pre_order visits v, c1, g, c2 (depth first, children in order)"); VF_PROBE(); }\n'
     P.generated['c09_h.c'] = h
     u = P.unit('tree', 'shim.cpp', harness=['harness.c', 'c09_h.c'], inline=True, maxb=32)
     for f, what in SC + [('vf_tree_pre_order', 'pre_order visits v, c1, g, c2 (depth first, children in order)')]:
@@ -41,6 +41,6 @@ def make(tier):
             continue   # std::list::sort loops over 64 merge buckets: needs unwind 66, does not close (listed as not decided)
         slow = f in ('vf_tree_erase_clear', 'vf_tree_pre_order', 'vf_tree_pop')   # measured > 5 min or > 24 GB: thorough-tier attempts
         two = f in ('vf_tree_build', 'vf_tree_insert_middle', 'vf_tree_pop', 'vf_tree_erase_clear', 'vf_tree_child_position', 'vf_tree_pre_order')   # shapes with two children need one more unwinding
-        u.lemma('h_' + f[3:], cls='B', unwind=4 if two else 3, mem=24, bound='trees of at most 4 nodes of the shape named in the scenario, node values symbolic; list loops and recursion unwound 3 (one child per node) or 4 (two children) times with unwinding assertions', backends=['sat'], timeout=2400 if slow else 900, native=False, tier='thorough' if slow else 'quick', optional=slow,
+        u.lemma('h_' + f[3:], cls='B', unwind=4 if two else 3, mem=24, bound='trees of at most 4 nodes of the shape named in the scenario, node values symbolic; list loops and recursion unwound 3 (one child per node) or 4 (two children) times with unwinding assertions', backends=['sat'], timeout=2400 if slow else 900, tier='thorough' if slow else 'quick', optional=slow,
                 what='tree: ' + what, assumed=[LIST], cbmc=['--slice-formula'])
     return P
